@@ -345,20 +345,21 @@ def edit_constant(parameterized):
     kls_params = parameterized.param.objects(instance=False)
     inst_params = parameterized._param__private.params
     updated = []
-    for pname, pobj in (kls_params | inst_params).items():
-        if pobj.constant:
-            pobj.constant = False
-            updated.append(pname)
+    for pname, kls_pobj in kls_params.items():
+        if not inst_params.get(pname, kls_pobj).constant:
+            continue
+        # Only the instance-level Parameter of this object is unlocked:
+        # lowering the flag of the class Parameter would unlock the class
+        # and all its other instances for the duration of the block (and
+        # for good if they copy the Parameter meanwhile).
+        pobj = _instantiated_parameter(parameterized, kls_pobj)
+        pobj.constant = False
+        updated.append(pobj)
     try:
         yield
     finally:
-        for pname in updated:
-            # Some operations trigger a parameter instantiation (copy),
-            # we ensure both the class and instance parameters are reset.
-            if pname in kls_params:
-                type(parameterized).param[pname].constant=True
-            if pname in inst_params:
-                parameterized.param[pname].constant = True
+        for pobj in updated:
+            pobj.constant = True
 
 
 @contextmanager
